@@ -224,6 +224,21 @@ class Runner:
         rec = dict(op)
         if line is not None:
             model_out = self._ask(line)
+            if model_out == 'inadmissible' and op['op'] in ('packAll', 'repack', 'repackOne'):
+                # Was it only the compression verdicts (a C10 matter)?  Then some other mode admits the same observed
+                # choices; keep tracking the state with it and record the disagreement in the `verdict` layer only.
+                cur = _mode_name(op['mode'])
+                for alt in MODES:
+                    if alt == cur:
+                        continue
+                    parts = line.split(' ')
+                    parts[4] = alt
+                    alt_out = self._ask(' '.join(parts))
+                    if alt_out != 'inadmissible':
+                        self.res.diffs.append((self.step, 'verdict', f'mode {cur}: observed verdicts inadmissible', f'admissible under mode {alt}', op['op']))
+                        model_out = alt_out
+                        line = ' '.join(parts)
+                        break
             rec['model_line'] = line
         else:
             model_out = real_out if op['op'] == 'reinit' else 'ok'
@@ -251,10 +266,13 @@ class Runner:
                     key = c.add_streamed_object(ShortReader(data, op.get('short', 7)))
                 else:
                     key = c.add_object(data)
+                known_before = op['c'] in rc.expected
                 rc.expected.add(op['c'])
                 cid = rc.cid(key)
                 if cid != op['c']:
                     self._fail('C01', 'add-loose-key', f'add of cid {op["c"]} returned key {key} (cid {cid})')
+                    if known_before:
+                        self._fail('C09', 'known-content-other-key', f're-adding cid {op["c"]} returned a different key {key}')
                 return f'key={cid}'
             if kind == 'addPacked':
                 datas = [pool.contents[x] for x in op['cs']]
@@ -266,6 +284,14 @@ class Runner:
                     keys = c.add_streamed_objects_to_pack([io.BytesIO(d) for d in datas], **kw)
                 elif via == 'short':
                     keys = c.add_streamed_objects_to_pack([ShortReader(d, op.get('short', 7)) for d in datas], **kw)
+                elif via == 'midstream':
+                    # streams handed over at a position > 0; with no_holes + read-twice the library rewinds them
+                    streams = []
+                    for d in datas:
+                        st = io.BytesIO(d)
+                        st.seek(op.get('mid', 1) if len(d) > op.get('mid', 1) else 0)
+                        streams.append(st)
+                    keys = c.add_streamed_objects_to_pack(streams, **kw)
                 elif via == 'lazy':
                     from disk_objectstore.utils import LazyOpener  # pylint: disable=import-outside-toplevel
                     from pathlib import Path  # pylint: disable=import-outside-toplevel
@@ -281,10 +307,13 @@ class Runner:
                         os.remove(p)
                 else:  # one by one through add_streamed_object_to_pack
                     keys = [c.add_streamed_object_to_pack(io.BytesIO(d), **kw) for d in datas]
+                known_before = set(rc.expected)
                 rc.expected.update(op['cs'])
                 cids = [rc.cid(k) for k in keys]
                 if cids != list(op['cs']):
                     self._fail('C01', 'add-packed-keys', f'add to pack of cids {op["cs"]} returned keys of cids {cids}')
+                    if any(a != b and b in known_before for a, b in zip(cids, op['cs'])):
+                        self._fail('C09', 'known-content-other-key', f're-adding known content returned a different key: {cids} for {op["cs"]}')
                 return f'keys={show_nats(cids)}'
             if kind == 'packAll':
                 c.pack_all_loose(compress=_mode_obj(rc.dos, op['mode']), validate_objects=op.get('validate', True),
@@ -448,6 +477,8 @@ class Runner:
         real_rows = set()
         for (rid, hk, pack, off, length, comp, size) in post.rows:
             real_rows.add((rid, self._cid_or(rc, hk), pack, off, length, 1 if comp else 0, size))
+        if {r[1] for r in model_rows} != {r[1] for r in real_rows} or len(model_rows) != len(real_rows):
+            self.res.diffs.append((self.step, 'state.rowkeys', str(sorted(r[1] for r in model_rows)), str(sorted(r[1] for r in real_rows)), kind))
         if model_rows != real_rows:
             mr = {r[1:] for r in model_rows}
             rr = {r[1:] for r in real_rows}
@@ -527,9 +558,25 @@ class Runner:
         model = self._ask(f'store views {rc.name} {show_nats(ks)}')
         self.res.bump('view_compares')
         if model != real:
-            mp = dict(t.split('=', 1) for t in model.split(' '))
-            rp = dict(t.split('=', 1) for t in real.split(' ')) if not real.startswith('raised') else {}
-            for fld in ('keys', 'list', 'count', 'totals', 'validate'):
+            def split(view):
+                d = dict(t.split('=', 1) for t in view.split(' '))
+                out = {'list': d.get('list'), 'count': d.get('count'), 'totals': d.get('totals'), 'validate': d.get('validate')}
+                cnt = (d.get('count') or '..').split('.')
+                out['countobj'] = '.'.join(cnt[:2])
+                has, get, mb, meta = [], [], [], []
+                for ent in (d.get('keys') or '-').split(','):
+                    f = ent.split(':')
+                    if len(f) < 4:
+                        continue
+                    has.append(f'{f[0]}:{f[1]}')
+                    get.append(f'{f[0]}:{f[2]}')
+                    meta.append(f'{f[0]}:{f[3]}')
+                    mb.append(f'{f[0]}:' + '.'.join(f[3].split('.')[:2]))
+                out.update(has=','.join(has), get=','.join(get), meta=','.join(meta), metabasic=','.join(mb))
+                return out
+            mp = split(model)
+            rp = split(real) if not real.startswith('raised') else {}
+            for fld in ('has', 'get', 'metabasic', 'meta', 'list', 'countobj', 'count', 'totals', 'validate'):
                 if mp.get(fld) != rp.get(fld):
                     self.res.diffs.append((self.step, 'views.' + fld, mp.get(fld), rp.get(fld, real[:300]), kind))
         # ---- direct oracle for C02 (plain map), independent of the model
